@@ -67,6 +67,25 @@ class LeanEnc:
         return out
 
 
+def tree_literal(lines):
+    """the rule records as a balanced `Abnf.RTree` literal (left sizes stored in the nodes)"""
+    rules = [ln.strip().rstrip(",") for ln in lines]
+
+    def tree(lo, hi, ind):
+        if hi == lo:
+            return ".empty"
+        if hi - lo == 1:
+            return f"(.leaf {rules[lo]})"
+        mid = (lo + hi + 1) // 2
+        return f"(.node {mid - lo}\n{ind}{tree(lo, mid, ind + ' ')}\n{ind}{tree(mid, hi, ind + ' ')})"
+    return tree(0, len(rules), "  ")
+
+
+def grammar_defs(const, lines):
+    return (f"def {const}T : RTree :=\n  " + tree_literal(lines) + "\n\n"
+            f"def {const} : Grammar := {const}T.toGrammar\n\n")
+
+
 def write_if_changed(path, text):
     os.makedirs(os.path.dirname(path), exist_ok=True)
     if os.path.exists(path) and open(path).read() == text:
@@ -188,8 +207,8 @@ def emit_ranked(name, const, rules, P):
     mask = sum(1 << k for k, b in enumerate(nullable2) if b)
     names = ", ".join(f'("{type(r).__module__.split(".")[-1]}.{type(r).__name__}.{r.name}", {k})' for k, r in enumerate(ordered))
     text = (f"-- GENERATED by harness/extract.py from {lib.REPO}/src/abnf - do not edit\n"
-            "import Abnf.Syntax\nset_option maxRecDepth 100000\nnamespace AbnfGen\nopen Abnf\n\n"
-            f"def {const} : Grammar := #[\n" + ",\n".join(lines) + "\n]\n\n"
+            "import Abnf.RTree\nset_option maxRecDepth 100000\nnamespace AbnfGen\nopen Abnf\n\n"
+            + grammar_defs(const, lines) +
             f"def {const}Names : List (String × Nat) := [{names}]\n\n"
             f"-- untrusted certificate (rules are listed in rank order; nullable rules as a bit mask), checked by Abnf.wfFast\n"
             f"def {const}Mask : Nat := {mask}\ndef {const}D : Nat := {D2}\n\nend AbnfGen\n")
@@ -202,8 +221,8 @@ def emit(name, const, rules, P):
     names = ", ".join(f'("{r.name}", {k})' for k, r in enumerate(enc.rules))
     nullable, ranks, K, D = certificate(P, enc.rules)
     text = (f"-- GENERATED by harness/extract.py from {lib.REPO}/src/abnf/parser.py - do not edit\n"
-            "import Abnf.Syntax\nset_option maxRecDepth 100000\nnamespace AbnfGen\nopen Abnf\n\n"
-            f"def {const} : Grammar := #[\n" + ",\n".join(lines) + "\n]\n\n"
+            "import Abnf.RTree\nset_option maxRecDepth 100000\nnamespace AbnfGen\nopen Abnf\n\n"
+            + grammar_defs(const, lines) +
             f"def {const}Names : List (String × Nat) := [{names}]\n\n"
             f"-- untrusted certificate, checked by Abnf.wfCheck\n"
             f"def {const}Nullable : List Bool := [{', '.join('true' if b else 'false' for b in nullable)}]\n"
@@ -314,6 +333,60 @@ def emit_pairs(P, meta_rules, bundled_rules):
     return write_if_changed(os.path.join(GEN_DIR, "Pairs.lean"), text)
 
 
+def emit_ref(P, info, bundled_rules):
+    """The INDEPENDENT reading of every bundled module's ABNF text (harness/abnf_ref.py + declared imports + documented
+    first-match choices, harness/refgrammar.py) as a Lean table, and the pairing compiled rule <-> reference rule by
+    (class, name).  Obligation C09.compiled_equiv_text: the compiled table and this reading denote the same language."""
+    import refgrammar
+    world, _classes = refgrammar.build_world(info)
+    keys = list(world.order)
+    idx = {k: n for n, k in enumerate(keys)}
+    cid = [0]
+    lines = []
+    for k in keys:
+        r = world.rules[k]
+        lines.append(f'  ⟨"{k[0]}.{r["name"]}", some {refgrammar.lean_expr(r["ast"], idx, cid, top_first=r["first"])}, none⟩')
+    # UNTRUSTED hint: the compiled rules from which no first-match flag can be reached (checked by Abnf.plainOnG)
+    bi = {id(r): k for k, r in enumerate(bundled_rules)}
+
+    def flagged(p):
+        if isinstance(p, P.Alternation):
+            return bool(p.first_match) or any(flagged(q) for q in p.parsers)
+        if isinstance(p, P.Concatenation):
+            return any(flagged(q) for q in p.parsers)
+        if isinstance(p, P.Option):
+            return flagged(p.parser)
+        if isinstance(p, P.Repetition):
+            return flagged(p.element)
+        return False
+    bad = {k for k, r in enumerate(bundled_rules)
+           if getattr(r, "definition", None) is None or flagged(r.definition) or getattr(r, "exclude", None) is not None}
+    changed = True
+    while changed:
+        changed = False
+        for k, r in enumerate(bundled_rules):
+            if k in bad:
+                continue
+            if any(bi.get(id(x)) in bad for x in rule_refs(P, r.definition, [])):
+                bad.add(k)
+                changed = True
+    plain_mask = sum(1 << k for k in range(len(bundled_rules)) if k not in bad)
+    pairs = []
+    for n, r in enumerate(bundled_rules):
+        cls = type(r)
+        ns = "core" if cls is P.Rule else refgrammar.ns_of(cls.__module__.split(".")[-1], cls.__name__)
+        pairs.append((n, idx.get((ns, r.name.lower()), 10 ** 6)))
+    text = (f"-- GENERATED by harness/extract.py from {lib.REPO}/src/abnf/grammars (module texts read by harness/abnf_ref.py) - do not edit\n"
+            "import Abnf.RTree\nset_option maxRecDepth 100000\nnamespace AbnfGen\nopen Abnf\n\n"
+            + grammar_defs("refBundledG", lines) +
+            "-- (index in bundledG, index in refBundledG): same class, same rule name\n"
+            + "".join(f"def c09Pairs{k} : List (Nat × Nat) := [{', '.join(f'({a}, {b})' for a, b in pairs[k::8])}]\n" for k in range(8)) +
+            "def c09Pairs : List (Nat × Nat) := " + " ++ ".join(f"c09Pairs{k}" for k in range(8)) + "\n\n"
+            "-- compiled rules that reach no first-match flag (untrusted hint, checked by Abnf.plainOnG)\n"
+            f"def c09PlainMask : Nat := {plain_mask}\n\nend AbnfGen\n")
+    return write_if_changed(os.path.join(GEN_DIR, "RefBundled.lean"), text)
+
+
 def in_subprocess():
     """Extraction runs in a fresh interpreter so that nothing the calling check did to the process
     (pollution preludes, registry experiments) leaks into the data."""
@@ -328,15 +401,16 @@ def main():
     c1, _ = emit("Core", "coreG", [P.Rule.get(n) for n in CORE], P)
     c2, meta_rules = emit("Meta", "metaG", [P.ABNFGrammarRule.get(n) for n in META], P)
     # every rule object of every bundled grammar class (with whatever they reach), as ONE grammar
-    import bundled
-    mods = [bundled.load(m) for m in bundled.module_names()]
+    import modinfo
+    info = modinfo.load_all(P)      # imports every bundled module, recording the imports each one declares
     rules = []
     for (cls, _), r in P.Rule._obj_map.items():
         if cls.__module__.startswith("abnf.grammars."):
             rules.append(r)
     c3, bundled_rules = emit_ranked("Bundled", "bundledG", rules, P)
     c4 = emit_pairs(P, meta_rules, bundled_rules)
-    print("AbnfGen regenerated:", {"Core": c1, "Meta": c2, "Bundled": c3, "Pairs": c4, "bundled_rules": len(rules)})
+    c5 = emit_ref(P, info, bundled_rules)
+    print("AbnfGen regenerated:", {"Core": c1, "Meta": c2, "Bundled": c3, "Pairs": c4, "RefBundled": c5, "bundled_rules": len(rules)})
 
 
 if __name__ == "__main__":
